@@ -126,6 +126,11 @@ def const_index_source(fa, S, op, depth=0, seen=None):
         elif kind == "assign":
             rv = payload
             if rv["k"] in ("use", "cast"):
+                # a slice pattern `let &[a, b] = cols.as_slice()` binds element k directly
+                spl = op_place(rv["op"])
+                ci = [e for e in (spl["p"] if spl else []) if isinstance(e, dict) and "ci" in e]
+                if len(ci) == 1 and not ci[0].get("from_end"):
+                    return ci[0]["ci"]
                 r = const_index_source(fa, S, rv["op"], depth + 1, seen)
                 if r is not None:
                     return r
@@ -377,7 +382,7 @@ def matrix_rows(ctx):
             if t["k"] == "switch":
                 e = RS.operand(t["op"])
                 if e[0] == "binop" and e[1] in ("Ne", "Eq") and e[3][0] == "const" and \
-                        e[2][0] == "call" and short(e[2][1]) == "len":
+                        ((e[2][0] == "call" and short(e[2][1]) == "len") or show(e[2]).startswith("PtrMetadata(")):
                     cnt = e[3][1]
         ctx.ob("FMT", "matrix.def|reader|%s|expects-%d-columns" % (name, ncols), cnt == ncols,
                fn_loc(crate, MC + name), "%s requires exactly %s columns" % (name, cnt))
